@@ -31,6 +31,10 @@ type params struct {
 	// that transfers end while a periodic report is being produced.
 	TxDelayMS  int `json:"tx_delay_ms,omitempty"`
 	UpdDelayMS int `json:"upd_delay_ms,omitempty"`
+	// TxHoldMS: turn-around of the modem: a burst stays in the reported transmit buffer (and Flush
+	// blocks) that long, so periodic reports fall into moments where the modem holds more bytes
+	// (message + framing) than message bytes have been written.
+	TxHoldMS int `json:"tx_hold_ms,omitempty"`
 }
 
 var Check = &vrt.Check{
@@ -57,14 +61,17 @@ func plan(seed int64, tier string) []vrt.Case {
 		delay, size, n int
 		modem          bool
 		tx, upd        int
+		hold           int
 	}
 	base := []sc{
-		{0, 200, 1, false, 0, 0}, {0, 60000, 3, false, 0, 0}, {0, 6000, 2, true, 0, 0},
-		{1, 60000, 1, false, 0, 0}, {1, 60000, 2, true, 0, 0},
-		{50, 1500, 1, false, 0, 0}, {50, 3000, 2, false, 0, 0}, {50, 1500, 1, true, 0, 0}, {50, 6000, 3, true, 0, 0},
-		{300, 400, 1, false, 0, 0}, {300, 300, 2, true, 0, 0}, {300, 600, 1, true, 0, 0},
+		{0, 200, 1, false, 0, 0, 0}, {0, 60000, 3, false, 0, 0, 0}, {0, 6000, 2, true, 0, 0, 0},
+		{1, 60000, 1, false, 0, 0, 0}, {1, 60000, 2, true, 0, 0, 0},
+		{50, 1500, 1, false, 0, 0, 0}, {50, 3000, 2, false, 0, 0, 0}, {50, 1500, 1, true, 0, 0, 0}, {50, 6000, 3, true, 0, 0, 0},
+		{300, 400, 1, false, 0, 0, 0}, {300, 300, 2, true, 0, 0, 0}, {300, 600, 1, true, 0, 0, 0},
 		// slow modem query / slow updater: the end of a transfer falls into a periodic report
-		{50, 2600, 3, true, 120, 0}, {50, 2900, 3, false, 0, 120}, {50, 3300, 3, true, 90, 60}, {300, 500, 3, true, 150, 0},
+		{50, 2600, 3, true, 120, 0, 0}, {50, 2900, 3, false, 0, 120, 0}, {50, 3300, 3, true, 90, 60, 0}, {300, 500, 3, true, 150, 0, 0},
+		// modem turn-around longer than the reporting period: reports are taken while the modem still holds the whole burst
+		{0, 3000, 2, true, 0, 0, 400}, {1, 6000, 1, true, 0, 0, 700}, {0, 200, 3, true, 0, 0, 300}, {50, 1500, 2, true, 60, 0, 600},
 	}
 	reps := 2
 	if tier == "thorough" {
@@ -83,13 +90,16 @@ func plan(seed int64, tier string) []vrt.Case {
 			default:
 				size = 300 + r.Intn(500)
 			}
-			base = append(base, sc{d, size, 1 + r.Intn(3), r.Intn(2) == 0, []int{0, 0, 100, 160}[r.Intn(4)], []int{0, 0, 0, 90}[r.Intn(4)]})
+			base = append(base, sc{d, size, 1 + r.Intn(3), r.Intn(2) == 0, []int{0, 0, 100, 160}[r.Intn(4)], []int{0, 0, 0, 90}[r.Intn(4)], 0})
+			if last := &base[len(base)-1]; last.modem && r.Intn(3) == 0 {
+				last.hold = 260 + r.Intn(600)
+			}
 		}
 	}
 	var cs []vrt.Case
 	for i, s := range base {
 		for rep := 0; rep < reps; rep++ {
-			cs = append(cs, vrt.Case{ID: fmt.Sprintf("s%d-r%d", i, rep), Params: vrt.MustParams(params{Seed: seed, Index: i, DelayMS: s.delay, Size: s.size, NMsgs: s.n, Modem: s.modem, Rep: rep, TxDelayMS: s.tx, UpdDelayMS: s.upd}), TimeoutS: 600})
+			cs = append(cs, vrt.Case{ID: fmt.Sprintf("s%d-r%d", i, rep), Params: vrt.MustParams(params{Seed: seed, Index: i, DelayMS: s.delay, Size: s.size, NMsgs: s.n, Modem: s.modem, Rep: rep, TxDelayMS: s.tx, UpdDelayMS: s.upd, TxHoldMS: s.hold}), TimeoutS: 600})
 		}
 	}
 	return cs
@@ -196,6 +206,7 @@ func attempt(c vrt.Case) (vrt.Obs, map[string]bool) {
 	sa, sb := sc.Sides(a, b)
 	ra, rb := &recorder{delay: time.Duration(p.UpdDelayMS) * time.Millisecond}, &recorder{delay: time.Duration(p.UpdDelayMS) * time.Millisecond}
 	sa.ModemTxDelay, sb.ModemTxDelay = time.Duration(p.TxDelayMS)*time.Millisecond, time.Duration(p.TxDelayMS)*time.Millisecond
+	sa.ModemTxHold, sb.ModemTxHold = time.Duration(p.TxHoldMS)*time.Millisecond, time.Duration(p.TxHoldMS)*time.Millisecond
 	sa.Status, sb.Status = ra, rb
 	sa.Modem, sb.Modem = p.Modem, p.Modem
 	var pl vpipe.Plan
